@@ -963,8 +963,13 @@ class Sim(RxMixin):
         except SimFault:
             raise
         except Exception as e:
-            tb = traceback.extract_tb(e.__traceback__)[-1]
-            raise Violation(f'unexpected-exception:{name}:{type(e).__name__}', f'{e!r} at {tb.name}')
+            if isinstance(observe(h.mol, 'str'), tuple):
+                # a state whose signature cannot be written at all (the rebuilt twin raises the same way, which is what the
+                # step before compared): a normaliser that needs the signature fails with it - nothing new is learnt
+                self.probes['opaque_refused_unprintable'] += 1
+            else:
+                tb = traceback.extract_tb(e.__traceback__)[-1]
+                raise Violation(f'unexpected-exception:{name}:{type(e).__name__}', f'{e!r} at {tb.name}')
         self.probes['opaque:' + name] += 1
         resync(h.model, h.mol)
         # a Thiele form can be read, copied, cut, united, renumbered and normalised again, but not edited (hydrogens of aromatic
